@@ -227,11 +227,16 @@ def _with_between(rng, op, p=0.3):
         n = len((op.get('path') or op.get('text') or '').encode())
         nchunks = 1 + max(0, (n - (24 if op['k'] == 'lookup' else 16) + 31) // 32)
         if nchunks >= 2:
-            if rng.chance(0.5):
+            r = rng.random()
+            if r < 0.4:
                 s, e = domains.draw(rng, 'INTERRUPT')
                 sub = {'k': 'sys', 'name': 'INTERRUPT', 's': s, 'e': e, 'in': []}
-            else:
+            elif r < 0.7:
                 sub = op_single(rng, 'MACH_MKRUNNABLE')
+            else:
+                # a trace-class record with binary (non-text) arguments
+                sub = {'k': 'one', 'name': rng.pick(['TRACE_DATA_THREAD_TERMINATE', 'TRACE_DATA_THREAD_TERMINATE_PID', 'TRACE_DATA_EXEC']), 'q': 0,
+                       'a': [rng.pick([0x9f3a1ff, 0xfffefdfc, 0x4142434445, 800000 + rng.randrange(50)]), rng.word(), 0, 0]}
             op['between'] = {str(rng.randrange(nchunks - 1)): [sub]}
     return op
 
